@@ -37,6 +37,14 @@ CLAIMED = {
    technique="model checking of both readers' token-cursor interpretations in product with one role-annotated well-formed token grammar (sibling cross-check by shared roles)",
    text="Both readers consume the same lexer on the unmodified text; each is explored in product with the same well-formed token DFA whose transitions carry roles. Lossless: names/values under the field's ENTRY, paragraph boundaries at blank lines (with C03's accessor validation this fixes what it reports). Lossy: a Field is recorded for every name with the KEY text, every value line's text is appended to that field with newlines between lines, nothing else is appended or dropped, paragraphs end at blank lines, the last paragraph is kept, no Err/panic. Agreement is decided for well-formed documents at the granularity of token kinds.",
    note="For arbitrary (not well-formed) texts accepted by both readers only the shared lexer is established; value texts are opaque. Oracle grammar is hand-written (rules/deb822_parse.py)."),
+ "C08": dict(level="other", ref="4/C08",
+   technique="abstract interpretation of the lossy paragraph operations on all field vectors of length <= 3 (list model) and of the Display impls on every value shape of the domain (symbolic strings)",
+   text="get/set/insert/remove/len/is_empty are interpreted on every field vector up to length 3 over two names and compared with the ordered-list model (first match, in-place update or append, always-append, delete all of the name). Field/Paragraph/Deb822 Display are interpreted for single-line, multi-line, empty and empty-first-line values and must print exactly NAME ':' [' ' line] LF (' ' line LF)* with one blank line between paragraphs, i.e. the line forms whose tokenisation and reading C03/C06 decide. The equality parse(print(d)) == d itself is not evaluated.",
+   note="Bounded shapes (<= 3 fields, <= 3 lines); value lines are opaque non-empty atoms without newline/leading whitespace/'#'."),
+ "C19": dict(level="other", ref="4/C19",
+   technique="abstract interpretation of strip_pgp_signature over symbolic clear-signed messages (literal marker lines, opaque other lines), all truncation points and trailing additions",
+   text="The function body is interpreted on every combination of 0..2 armour headers, 7 payload shapes (0..3 lines incl. empty lines) and 1..2 signature lines, with and without final newline; every cut after a line must yield the error of the phase that was cut, trailing junk JunkAfterPgpSignature, unsigned text is returned unchanged; the Ok result must be exactly the payload lines each followed by LF and the concatenated signature lines (438 symbolic messages).",
+   note="Line atoms are non-empty, newline-free and differ from the markers (no dash-escaping); shapes are bounded - the per-phase loops are uniform; str::lines semantics as modelled in rules/symstr.py."),
 }
 NA_REASON = "check not built yet (construction in progress; see DESIGN.md section 9 build order)"
 
